@@ -1948,3 +1948,97 @@ func fnWithCallsTo(c *Ctx, root *ssa.Function, callee string, depth int) *ssa.Fu
 	}
 	return nil
 }
+
+// ruleSegIntersectMirrorSem: the semantic form of the end-point mirror of getSegmentIntersection. The function is
+// explored (helpers the reference record does not know are read inline); every path that answers because an end
+// point q lies on the other segment's line (a, b) is reduced to what it tests and returns after that discovery,
+// with q, a, b renamed; the four end points must give the same set of reduced paths.
+func ruleSegIntersectMirrorSem(rule string) func(*Ctx) {
+	return func(c *Ctx) {
+		f := c.fn("getSegmentIntersection")
+		ex := &explorer{c: c, f: f, canon: canonParams(f, "p1", "p2", "p3", "p4"), maxPaths: 20000}
+		outs := ex.explore(nil)
+		if ex.overflow {
+			fatalf("getSegmentIntersection: path explosion")
+		}
+		type blk struct{ q, a, b string }
+		blocks := []blk{{"p1", "p3", "p4"}, {"p2", "p3", "p4"}, {"p3", "p1", "p2"}, {"p4", "p1", "p2"}}
+		zero := func(b blk) string { return "(CrossProduct(" + b.q + ", " + b.a + ", " + b.b + ") == 0)" }
+		isDispatch := func(e string) bool { return strings.HasPrefix(e, "(CrossProduct(") || strings.HasPrefix(e, "((CrossProduct(") }
+		sigs := make([]map[string]bool, len(blocks))
+		for k, b := range blocks {
+			sigs[k] = map[string]bool{}
+			ren := strings.NewReplacer(b.q, "Q", b.a, "A", b.b, "B")
+			for _, p := range outs {
+				if p.end != "return" {
+					continue
+				}
+				// the first dispatch condition taken on the path must be this block's
+				first := -1
+				for i, cd := range p.conds {
+					if strings.HasSuffix(cd.expr, " == 0)") && strings.HasPrefix(cd.expr, "(CrossProduct(") && cd.taken {
+						first = i
+						break
+					}
+				}
+				if first < 0 || p.conds[first].expr != zero(b) {
+					continue
+				}
+				var parts []string
+				both := false
+				for _, cd := range p.conds[first+1:] {
+					if strings.HasSuffix(cd.expr, " == 0)") && strings.HasPrefix(cd.expr, "(CrossProduct(") && cd.taken {
+						both = true // both end points on the line: the collinear case, decided once, before the blocks
+					}
+				}
+				if both {
+					continue
+				}
+				for _, cd := range p.conds[first+1:] {
+					if isDispatch(cd.expr) {
+						continue
+					}
+					parts = append(parts, fmt.Sprintf("%s=%v", ren.Replace(cd.expr), cd.taken))
+				}
+				var rs []string
+				for _, r := range p.ret {
+					if r.abs.k == aBool {
+						rs = append(rs, fmt.Sprint(r.abs.b))
+					} else {
+						rs = append(rs, ren.Replace(r.v()))
+					}
+				}
+				for _, s := range p.stores { // the returned point is built in a local
+					if strings.HasSuffix(s.addr, ".X") || strings.HasSuffix(s.addr, ".Y") || s.addr == "ip" {
+						rs = append(rs, ren.Replace(s.addr+"<-"+s.val.v()))
+					}
+				}
+				sigs[k][strings.Join(parts, " && ")+" => "+strings.Join(rs, ", ")] = true
+			}
+		}
+		bad := ""
+		for k := 1; k < len(blocks) && bad == ""; k++ {
+			if len(sigs[k]) == 0 || len(sigs[0]) == 0 {
+				bad = fmt.Sprintf("no path answers for end point %s lying on the other segment's line", blocks[k].q)
+				if len(sigs[0]) == 0 {
+					bad = "no path answers for end point p1 lying on the other segment's line"
+				}
+				break
+			}
+			for s := range sigs[0] {
+				if !sigs[k][s] {
+					bad = fmt.Sprintf("end point %s: no path does what p1's does — [%s]", blocks[k].q, s)
+					break
+				}
+			}
+			for s := range sigs[k] {
+				if !sigs[0][s] && bad == "" {
+					bad = fmt.Sprintf("end point %s has a path p1's block lacks — [%s]", blocks[k].q, s)
+				}
+			}
+		}
+		c.check(bad == "", rule, rule+":getSegmentIntersection:end-point-blocks", f.Pos(), "getSegmentIntersection",
+			fmt.Sprintf("the four end-point cases coincide under renaming (%d reduced paths each)", len(sigs[0])), bad,
+			"the rectangle's edges are passed in both directions (the bottom edge right-to-left): a between-test that is right for one end point or one direction and wrong for another misses a vertex lying exactly on that edge")
+	}
+}
